@@ -289,7 +289,7 @@ pub fn extract(repo: &str, w: &mut World) -> Result<String, String> {
                         if ["length", "percent", "auto"].contains(&name.as_str()) && env.enabled(&f.attrs)? {
                             let lean_rel = format!("{n}.{}", ident(&name));
                             let r = req_refs.contains(&lean_rel.as_str());
-                            out.function(w, Plan { head: n.to_string(), rust_name: name, lean_rel, self_ty: Some(st.clone()), generics: HashMap::new(), sig: &f.sig, block: &f.block, required: r, trunc_sub: false });
+                            out.function(w, Plan { head: n.to_string(), rust_name: name, lean_rel, self_ty: Some(st.clone()), generics: HashMap::new(), sig: &f.sig, block: &f.block, required: r, trunc_sub: false, ext: Default::default() });
                         }
                     }
                 }
@@ -339,7 +339,7 @@ pub fn extract(repo: &str, w: &mut World) -> Result<String, String> {
                                 if f.sig.ident == fname {
                                     let lean_rel = format!("{cont}_{n}.{fname}");
                                     let r = req_refs.contains(&lean_rel.as_str());
-                                    out.function(w, Plan { head: cont.to_string(), rust_name: fname.to_string(), lean_rel, self_ty: Some(st.clone()), generics: g.clone(), sig: &f.sig, block: &f.block, required: r, trunc_sub: false });
+                                    out.function(w, Plan { head: cont.to_string(), rust_name: fname.to_string(), lean_rel, self_ty: Some(st.clone()), generics: g.clone(), sig: &f.sig, block: &f.block, required: r, trunc_sub: false, ext: Default::default() });
                                 }
                             }
                         }
